@@ -412,7 +412,8 @@ pub fn pg_roundtrip<const B: usize, const L: usize, const T: usize>(nd: &mut Nd)
         5 => Type::MONEY,
         6 => Type::BYTEA,
         7 => Type::BIT,
-        _ => Type::VARBIT,
+        8 => Type::VARBIT,
+        _ => Type::NUMERIC,
     };
     let mut out = BytesMut::new();
     match v.to_sql(&t, &mut out) {
